@@ -28,6 +28,11 @@ def make_wl(rng, k):
         spec["gene_naming"] = k % 3
         spec["drop_chr_annotation"] = 1 if k % 3 == 1 else 0
         opts["annotated"] = True if k % 5 else opts.get("annotated", True)
+    if k is not None and k % 4 == 2:
+        # killed right after a chromosome was marked as processed (everything that belongs to it must be on disk by then)
+        opts["force_fault"] = {"kind": "kill", "stage": "construct", "label_rx": r"_processed$", "nth": (k // 4) % 3, "phase": "after"}
+        spec["n_chr"] = max(3, spec.get("n_chr", 3))
+        spec["n_exp"] = 1
     if k is not None and k % 4 == 3:
         # an unannotated transcript that overlaps an annotated gene AND its antisense gene, annotation ids that sort after
         # 'novel_gene_...': the gene joiner has to merge a novel gene with an annotated one (default ONT settings)
